@@ -87,8 +87,13 @@ def run(chk):
         # ---- GMM initialised from k-means starts from exactly these centroids, variances (floored) and weights
         if i % 3 == 0 and offset <= 1e3:
             kmt = KMeansMachine(n_clusters=K, init_method=np.array(cents), max_iter=2)
-            g = GMMMachine(n_gaussians=K, k_means_trainer=kmt, max_fitting_steps=0)
-            g.fit(X)
+            # every other case the constructor is also given weights / floors: initialisation from k-means replaces the weights all the same
+            extra = {} if i % 2 else {"weights": np.asarray(gen.simplex(r, K))}
+            g = GMMMachine(n_gaussians=K, k_means_trainer=kmt, max_fitting_steps=0, **extra)
+            if i % 4 == 0:
+                g.fit(X)
+            else:
+                g.initialize_gaussians(X)
             kv, kw = kmt.get_variances_and_weights_for_each_cluster(X)
             chk.count(1, key=("gmm_init", K, D))
             if not (np.array_equal(g.means, kmt.centroids_) and np.array_equal(g.weights, kw)
